@@ -158,3 +158,37 @@ def run(st, event, budget=True):
 
 def types(events):
     return [e["type"] for e in events]
+
+
+class ApiSession:
+    """The same program driven through the public event-processing API: RuntimeV2_x.process_events (which feeds the
+    outgoing events back as input events, executes runtime-level actions and applies its own event budget).
+    `out` / `run()` give the outgoing event dicts of one API call; `st` is the State the call returned."""
+
+    def __init__(self, content, budget=3_000_000):
+        load()
+        from nemoguardrails import RailsConfig
+        from nemoguardrails.colang.v2_x.runtime.runtime import RuntimeV2_x
+
+        self.budget = budget
+        try:
+            self.rt = RuntimeV2_x(RailsConfig.from_content(content, 'colang_version: "2.x"\nmodels: []\n'))
+        except steps.StepBudgetExceeded:
+            raise
+        except Exception as e:
+            raise LoaderReject("runtime %s: %s" % (type(e).__name__, str(e)[:300]))
+        self.st = None
+        self.out = self._feed([])
+
+    def _feed(self, events):
+        import asyncio
+
+        steps.start(self.budget)
+        try:
+            out, self.st = asyncio.run(self.rt.process_events(events, self.st, blocking=True))
+        finally:
+            steps.stop()
+        return [dict(e) for e in out]
+
+    def run(self, event):
+        return self._feed([event])
